@@ -16,3 +16,4 @@ INVARIANT Drift_Diag1
 INVARIANT Drift_Refusal
 INVARIANT WideStateDiagOK
 INVARIANT Drift_WideStateDiag
+INVARIANT DiagFrameOK
